@@ -13,7 +13,7 @@ from . import common, rel, tlc, tree
 
 TIERS = {
     "quick": dict(depth=2, sample=140, sim_num=30, sim_depth=3, per_prog=10, shapes=2),
-    "thorough": dict(depth=2, sample=1200, sim_num=400, sim_depth=4, per_prog=40, shapes=5),
+    "thorough": dict(depth=2, sample=1200, sim_num=90, sim_depth=3, per_prog=40, shapes=5),
 }
 SHAPES = [(1, 1), (2, 3), (5, 4), (3, 8), (9, 2), (4, 17), (8, 8), (2, 1)]
 KIND_OF = {"reduce": "reduce", "groupby": "groupby", "merge": "merge", "sort": "sort", "setindex": "sort", "shuffle": "shuffle",
